@@ -108,6 +108,13 @@ def run(prog, ctx):
     ctx.notes.append("inventory rows without an object today: %s" % missing)
     ctx.floor("C18 static objects", len(objs), 10)
 
+    _per_entry = {}
+
+    def per_entry_reach(e):
+        if e not in _per_entry:
+            _per_entry[e] = reachable_from_exports(prog, only=[e])
+        return _per_entry[e]
+
     # ---- T2 writers -----------------------------------------------------------------------
     for name, r in sorted(rows.items()):
         if name not in objs:
@@ -126,16 +133,26 @@ def run(prog, ctx):
         if "readers" not in r or name not in objs:
             continue
         allowed_r = set(r["readers"])
-        rbad = [(f, ref) for (f, ref) in readers.get(name, []) if f.name not in allowed_r]
+        # the record may be read for the diagnostic entry points only: a reader is fine when no other exported function reaches it
+        diag = set(r.get("reader_entries", []))
+
+        def only_diagnostic(fname):
+            if fname in allowed_r:
+                return True
+            if not diag:
+                return False
+            froms = [e for e in prog.entry_points() if fname in per_entry_reach(e)]
+            return bool(froms) and set(froms) <= diag
+        rbad = [(f, ref) for (f, ref) in readers.get(name, []) if not only_diagnostic(f.name)]
         # a read-modify-write (x++, x += ..) is a read as well
-        rbad += [(f, ref) for (f, ref, w) in writers.get(name, []) if w in ("incremented", "compound-assigned") and f.name not in allowed_r]
+        rbad += [(f, ref) for (f, ref, w) in writers.get(name, []) if w in ("incremented", "compound-assigned") and not only_diagnostic(f.name)]
         if rbad:
             f, ref = rbad[0]
             ctx.fail("T2", "readers of %s" % name, ref.where,
                      "%s reads the process-wide %s: results computed for one thread's private object then depend on what other "
                      "threads are parsing (%s)" % (f.name, r["role"], r.get("readers_reason", "")), key="reader:%s:%s" % (name, f.name))
         else:
-            ctx.ok("T2", "readers of %s" % name, objs[name]["where"], "read only by %s" % sorted(allowed_r))
+            ctx.ok("T2", "readers of %s" % name, objs[name]["where"], "read only by %s" % sorted(set(f.name for f, _ in readers.get(name, []))))
     # the out-of-range buffer is touched only for codes outside the table
     es = prog.fn("econf_errString")
     cfg = es.cfg
@@ -266,9 +283,9 @@ def run(prog, ctx):
             ctx.ok("T5", "static object %s holds no configuration object" % name, o["where"], "type %s" % t)
 
 
-def reachable_from_exports(prog):
+def reachable_from_exports(prog, only=None):
     seen = set()
-    stack = [n for n in prog.entry_points()]
+    stack = [n for n in (prog.entry_points() if only is None else only)]
     table = indirect_table(prog)
     while stack:
         n = stack.pop()
